@@ -24,6 +24,7 @@ package main
 import (
 	"fmt"
 	"go/ast"
+	"go/parser"
 	"go/token"
 	"os"
 	"path/filepath"
@@ -54,6 +55,35 @@ var trTargets = [][2]string{
 	{"ID", "Source"}, {"Equals", "Source"}, {"IsHostmask", "Source"}, {"IsServer", "Source"},
 	{"parseUserPrefix", ""}, {"hasArg", "CModes"},
 	{"TrimFmt", ""}, {"Fmt", ""}, {"StripRaw", ""},
+	// phase 3: value-level pieces of the stateful code
+	{"NewCModes", ""}, {"Parse", "CModes"}, {"Apply", "CModes"}, {"Get", "CModes"}, {"HasMode", "CModes"},
+	{"String", "CModes"}, {"Copy", "CModes"},
+	{"reset", "Perms"}, {"set", "Perms"}, {"setFromMode", "Perms"}, {"IsAdmin", "Perms"}, {"IsTrusted", "Perms"},
+	{"InChannel", "User"}, {"addChannel", "User"}, {"deleteChannel", "User"},
+	{"UserIn", "Channel"}, {"addUser", "Channel"}, {"deleteUser", "Channel"},
+	{"Encode", "SASLPlain"}, {"Encode", "SASLExternal"},
+	{"rate", "ircConn"},
+	{"Join", "Commands"}, {"List", "Commands"}, {"Part", "Commands"}, {"Kick", "Commands"}, {"Mode", "Commands"},
+	{"Ban", "Commands"}, {"Invite", "Commands"}, {"Back", "Commands"}, {"Away", "Commands"}, {"Who", "Commands"},
+	{"Whois", "Commands"}, {"Ping", "Commands"}, {"Pong", "Commands"},
+	{"parseCap", ""},
+	{"Nick", "Commands"}, {"JoinKey", "Commands"}, {"PartMessage", "Commands"}, {"Message", "Commands"},
+	{"Notice", "Commands"}, {"Action", "Commands"}, {"Topic", "Commands"}, {"Oper", "Commands"}, {"Unban", "Commands"},
+	{"SendRaw", "Commands"},
+}
+
+// suffix targets: the TAIL of a function that is otherwise outside the subset (a handler whose first part reads client
+// state).  The generated function `lean` is the translation of the body from the first top-level statement of kind
+// `from` ("for") to the end; the variables declared before that point which the tail uses (`captured`, with their Go
+// types – the translator has no type checker for the untranslated part, so the types are table entries and a wrong
+// entry makes the generated Lean ill-typed) become parameters, after the function's own parameters that the tail uses.
+type suffixTarget struct {
+	fn, recv, lean, from string
+	captured         [][2]string
+}
+
+var trSuffixTargets = []suffixTarget{
+	{"handleSASL", "", "handleSASL_chunks", "for", [][2]string{{"auth", "string"}}},
 }
 
 // structTable: Go struct -> the fields that exist in the Lean structure of the same name
@@ -63,20 +93,84 @@ var structTable = map[string][]string{
 	"Source":    {"Name", "Ident", "Host"},
 	"Event":     {"Tags", "Source", "Command", "Params"},
 	"CTCPEvent": {"Source", "Command", "Text", "Reply"},
-	// CModes: the five string fields (modes []CMode is outside the subset); a struct that contains an unlisted
-	// field can be read through a pointer but never built by translated code (structOpaque).
-	"CModes": {"raw", "modesListArgs", "modesArgs", "modesSetArgs", "modesNoArgs", "prefixes"},
+	"CMode":     {"add", "name", "setting", "args"},
+	"CModes":    {"raw", "modesListArgs", "modesArgs", "modesSetArgs", "modesNoArgs", "prefixes", "modes"},
+	"Perms":     {"Owner", "Admin", "Op", "HalfOp", "Voice"},
+	// User: the Lean structure has further fields (perms, name, account, away) the translator does not know: a struct
+	// with unlisted Lean fields can be read and updated through a pointer but never built by translated code (structOpaque).
+	"User":         {"Nick", "Ident", "Host", "ChannelList"},
+	"Channel":      {"Name", "Topic", "UserList", "Modes"},
+	"SASLPlain":    {"User", "Pass"},
+	"SASLExternal": {"Identity"},
+	"ircConn":      {"lastWrite", "lastDue", "writeDelay"},
+}
+
+// leanStructName: Go struct -> Lean structure where the names differ.
+var leanStructName = map[string]string{"ircConn": "IrcConn"}
+
+func leanStruct(n string) string {
+	if l, ok := leanStructName[n]; ok {
+		return l
+	}
+	return n
+}
+
+// typeAliasTable: library types that are represented by a kind of the subset.  time.Time and time.Duration are both
+// integer nanoseconds (TRUSTED, TRANSLATOR_NOTES §3: wall/monotonic clock readings are one Int; Go's own type checker
+// keeps instants and durations apart).
+var typeAliasTable = map[string]kind{"time.Time": kInt, "time.Duration": kInt}
+
+// pkgQualifiedConsts: typed library constants.
+var pkgQualifiedConsts = map[string]string{
+	"time.Nanosecond": "1", "time.Microsecond": "1000", "time.Millisecond": "1000000", "time.Second": "1000000000",
+	"time.Minute": "60000000000", "time.Hour": "3600000000000",
+}
+
+// timeMethodTable: methods of time.Time / time.Duration values (both kInt; Go ints have no methods, so a method call on
+// a kInt expression is one of these).  $0 = receiver, $1 = argument.
+var timeMethodTable = map[string]struct {
+	tmpl string
+	ret  kind
+}{
+	"After":  {"(decide ($0 > $1))", kBool},
+	"Before": {"(decide ($0 < $1))", kBool},
+	"Equal":  {"($0 == $1)", kBool},
+	"Sub":    {"($0 - $1)", kInt},
+	"Add":    {"($0 + $1)", kInt},
+}
+
+// handleTypes: parameter types that are handles on the client object.  Such a parameter is DROPPED from the generated
+// signature; the body may use it only as the root of a sink call (sinkTable) or of an environment read (envReadTable),
+// or to call another translated method of the same handle type.
+var handleTypes = map[string]bool{"Commands": true, "Client": true}
+
+// sinkTable: "effect calls".  A call statement `<text>(arg)` appends `<constructor> arg` to the output list `outs_`,
+// which becomes the LAST result of the generated function (and of every translated function that calls it).
+var sinkTable = map[string]string{
+	"c.write": "Out.write", "c.Send": "Out.send", "c.receive": "Out.inject",
+	"cmd.c.write": "Out.write", "cmd.c.Send": "Out.send",
+}
+
+// envReadTable: calls that READ state outside the model (client state, the clock).  Each becomes an explicit leading
+// parameter of the generated function; it may occur only once and not inside a loop (it is read once).
+var envReadTable = map[string]struct {
+	param string
+	k     kind
+}{
+	"cmd.c.MaxEventLength()": {"maxEventLength", kInt},
+	"time.Now()":             {"now", kInt},
 }
 
 // structOpaque: structs of structTable that have further Lean fields the translator does not know; composite
 // literals, `new` and zero values of these are outside the subset.
-var structOpaque = map[string]bool{"CModes": true}
+var structOpaque = map[string]bool{"User": true}
 
 // fieldRename: Go field -> Lean field where the hand-written structure uses another name (default: the Go
 // name with a lower-case first letter).
 var fieldRename = map[string]string{
 	"CModes.modesListArgs": "listArgs", "CModes.modesArgs": "argsM", "CModes.modesSetArgs": "setArgs",
 	"CModes.modesNoArgs": "noArgs",
+	"Perms.HalfOp": "halfop", "User.ChannelList": "chans", "Channel.UserList": "users",
 }
 
 func leanField(st, goField string) string {
@@ -104,6 +198,8 @@ var stdlibTable = map[string]libFn{
 	"strings.HasPrefix":  {"hasPrefix $1 $2", []kind{kStr, kStr}, kBool, false},
 	"strings.HasSuffix":  {"hasSuffix $1 $2", []kind{kStr, kStr}, kBool, false},
 	"strings.Split":      {"split $1 $2", []kind{kStr, kStr}, kStrs, true},
+	"strings.SplitN":     {"splitN $1 $2 $3", []kind{kStr, kStr, kInt}, kStrs, true},
+	"base64.StdEncoding.EncodeToString": {"b64Encode $1", []kind{kStr}, kStr, false},
 	"strings.ToUpper":    {"toUpperAscii $1", []kind{kStr}, kStr, false},
 	"strings.ToLower":    {"toLowerAscii $1", []kind{kStr}, kStr, false},
 	"strings.ReplaceAll": {"replaceAll $1 $2 $3", []kind{kStr, kStr, kStr}, kStr, true},
@@ -143,6 +239,9 @@ const (
 	kBool
 	kStr  // string or []byte
 	kStrs // []string
+	kStructs // []S for a struct S of structTable
+	kOuts    // the output list of sink calls (`outs_ : List Out`)
+	kMapMap  // map[string]map[string]string, nil-able; the inner maps are values (no two entries alias, §2.5)
 	kPtr  // *Struct
 	kStruct
 	kBuf  // *bytes.Buffer (threaded as Bytes)
@@ -171,9 +270,15 @@ func (t gty) lean() string {
 	case kStrs:
 		return "List Bytes"
 	case kPtr:
-		return "Option " + t.name
+		return "Option " + leanStruct(t.name)
 	case kStruct:
-		return t.name
+		return leanStruct(t.name)
+	case kStructs:
+		return "List " + leanStruct(t.name)
+	case kOuts:
+		return "List Out"
+	case kMapMap:
+		return "Option (AMap (Option Tags))"
 	case kMap:
 		return "Option Tags"
 	case kErr:
@@ -255,8 +360,38 @@ type trSig struct {
 	orders  []string        // package-level maps the body ranges over: one extra leading parameter `<map>_order_` each
 	mapout  []string        // map parameters whose entries the body assigns (caller-visible): appended to the results after the buffers
 	rebound map[string]bool // map-out parameters that the body also re-binds (`t = make(Tags)`)
-	ok      bool
-	why     string
+	// phase 3
+	handles  map[string]string // dropped handle parameters: Go name -> type name (handleTypes)
+	envs     []string          // environment reads (keys of envReadTable) in the body: one leading parameter each
+	ptrout   []string          // pointer parameters the body writes THROUGH (`p.f = e`): the final pointer is an extra result
+	sinks    bool              // the body (or a callee) calls a sink: `outs_ : List Out` is the last result
+	variadic bool              // the last parameter is `xs ...T`
+	body     *ast.BlockStmt    // what is translated: the whole body, or its tail for a suffix target
+	suffix   *suffixTarget
+	ok       bool
+	why      string
+}
+
+func (s *trSig) isPtrout(n string) bool {
+	for _, p := range s.ptrout {
+		if p == n {
+			return true
+		}
+	}
+	return false
+}
+
+func (s *trSig) extras() bool {
+	return len(s.inout) > 0 || len(s.mapout) > 0 || len(s.ptrout) > 0 || s.sinks
+}
+
+func (s *trSig) paramType(n string) (gty, bool) {
+	for _, p := range s.params {
+		if p.name == n {
+			return p.t, true
+		}
+	}
+	return gty{}, false
 }
 
 type trParam struct {
@@ -272,7 +407,41 @@ func (s *trSig) resultType() string {
 	for range s.mapout {
 		ts = append(ts, gty{k: kMap})
 	}
-	return leanTuple(ts)
+	parts := []string{}
+	for _, t := range ts {
+		parts = append(parts, t.lean())
+	}
+	for _, p := range s.ptrout {
+		t, _ := s.paramType(p)
+		parts = append(parts, t.lean())
+	}
+	if s.sinks {
+		parts = append(parts, "List Out")
+	}
+	if len(parts) == 0 {
+		return "Unit"
+	}
+	if len(parts) > 1 {
+		for i := range parts {
+			if strings.Contains(parts[i], " ") {
+				parts[i] = "(" + parts[i] + ")"
+			}
+		}
+	}
+	return strings.Join(parts, " × ")
+}
+
+// leadParams renders the extra leading parameters (range orders, environment reads).
+func (s *trSig) leadParams() []string {
+	var out []string
+	for _, o := range s.orders {
+		out = append(out, fmt.Sprintf("(%s_order_ : List Bytes)", leanVar(o)))
+	}
+	for _, e := range s.envs {
+		er := envReadTable[e]
+		out = append(out, fmt.Sprintf("(%s : %s)", er.param, gty{k: er.k}.lean()))
+	}
+	return out
 }
 
 func trLeanName(name, recv string) string {
@@ -317,9 +486,31 @@ func (g *trGen) goType(e ast.Expr) (gty, bool) {
 				case "string":
 					return gty{k: kStrs}, true
 				}
+				if _, ok := structTable[id.Name]; ok {
+					return gty{k: kStructs, name: id.Name}, true
+				}
 			}
 		}
+	case *ast.MapType:
+		if k, ok := v.Key.(*ast.Ident); ok && k.Name == "string" {
+			if inner, ok := g.goType(v.Value); ok {
+				switch inner.k {
+				case kStr:
+					if id, isId := v.Value.(*ast.Ident); isId && id.Name == "string" {
+						return gty{k: kMap}, true
+					}
+				case kMap:
+					return gty{k: kMapMap}, true
+				}
+			}
+		}
+	case *ast.Ellipsis:
+		// variadic parameter `xs ...T`: a []T
+		return g.goType(&ast.ArrayType{Elt: v.Elt})
 	case *ast.SelectorExpr:
+		if k, ok := typeAliasTable[exprString(v)]; ok {
+			return gty{k: k}, true
+		}
 		// io.Writer: only *bytes.Buffer arguments are modelled (a writer is its contents; Write never fails)
 		if x, ok := v.X.(*ast.Ident); ok && x.Name == "io" && v.Sel.Name == "Writer" {
 			return gty{k: kBuf}, true
@@ -409,15 +600,63 @@ func (g *trGen) findFunc(name, recv string) *ast.FuncDecl {
 	return nil
 }
 
-func (g *trGen) signature(name, recv string) *trSig {
-	s := &trSig{name: trLeanName(name, recv)}
+func (g *trGen) signature(name, recv string, sfx *suffixTarget) *trSig {
+	s := &trSig{name: trLeanName(name, recv), suffix: sfx}
+	if sfx != nil {
+		s.name = sfx.lean
+	}
 	fd := g.findFunc(name, recv)
 	if fd == nil || fd.Body == nil {
 		s.why = "function not found in the Go sources"
 		return s
 	}
 	s.fd = fd
+	s.body = fd.Body
+	if sfx != nil {
+		at := -1
+		for i, st := range fd.Body.List {
+			if _, isFor := st.(*ast.ForStmt); isFor && sfx.from == "for" {
+				at = i
+				break
+			}
+		}
+		if at < 0 {
+			s.why = "suffix target: no top-level `" + sfx.from + "` statement in " + name
+			return s
+		}
+		s.body = &ast.BlockStmt{Lbrace: fd.Body.List[at].Pos(), List: fd.Body.List[at:], Rbrace: fd.Body.Rbrace}
+	}
+	usedInBody := map[string]bool{}
+	identsIn(s.body, usedInBody)
+	s.handles = map[string]string{}
 	add := func(fl *ast.Field) bool {
+		// a handle on the client object: dropped
+		ht := fl.Type
+		if st, ok := ht.(*ast.StarExpr); ok {
+			ht = st.X
+		}
+		if id, ok := ht.(*ast.Ident); ok && handleTypes[id.Name] {
+			for _, n := range fl.Names {
+				s.handles[n.Name] = id.Name
+			}
+			return true
+		}
+		if sfx != nil {
+			// a suffix target keeps only the parameters its tail uses
+			var keep []*ast.Ident
+			for _, n := range fl.Names {
+				if usedInBody[n.Name] {
+					keep = append(keep, n)
+				}
+			}
+			if len(keep) == 0 {
+				return true
+			}
+			fl = &ast.Field{Names: keep, Type: fl.Type}
+		}
+		if _, isVar := fl.Type.(*ast.Ellipsis); isVar {
+			s.variadic = true
+		}
 		t, ok := g.goType(fl.Type)
 		if !ok {
 			s.why = "parameter type outside the subset at " + g.pos(fl)
@@ -447,6 +686,25 @@ func (g *trGen) signature(name, recv string) *trSig {
 			return s
 		}
 	}
+	if sfx != nil {
+		for _, cv := range sfx.captured {
+			te, err := parser.ParseExpr(cv[1])
+			if err != nil {
+				s.why = "suffix target: bad captured type " + cv[1]
+				return s
+			}
+			t, ok := g.goType(te)
+			if !ok {
+				s.why = "suffix target: captured type outside the subset: " + cv[1]
+				return s
+			}
+			s.params = append(s.params, trParam{leanVar(cv[0]), t})
+		}
+		if fd.Type.Results != nil && len(fd.Type.Results.List) > 0 {
+			s.why = "suffix target with results"
+			return s
+		}
+	}
 	if fd.Type.Results != nil {
 		for _, fl := range fd.Type.Results.List {
 			t, ok := g.goType(fl.Type)
@@ -472,7 +730,7 @@ func (g *trGen) signature(name, recv string) *trSig {
 		}
 		return false
 	}
-	ast.Inspect(fd.Body, func(x ast.Node) bool {
+	ast.Inspect(s.body, func(x ast.Node) bool {
 		if rs, ok := x.(*ast.RangeStmt); ok {
 			if id, ok := rs.X.(*ast.Ident); ok && !isParam(id.Name) && g.pkgMap(id.Name) != nil {
 				dup := false
@@ -495,7 +753,7 @@ func (g *trGen) signature(name, recv string) *trSig {
 			continue
 		}
 		elem, rebind := false, false
-		ast.Inspect(fd.Body, func(x ast.Node) bool {
+		ast.Inspect(s.body, func(x ast.Node) bool {
 			switch v := x.(type) {
 			case *ast.AssignStmt:
 				for _, l := range v.Lhs {
@@ -524,8 +782,148 @@ func (g *trGen) signature(name, recv string) *trSig {
 			}
 		}
 	}
+	// environment reads
+	ast.Inspect(s.body, func(x ast.Node) bool {
+		if c, ok := x.(*ast.CallExpr); ok {
+			// (environment reads are recorded while the body is translated: only the ones that are not erased count)
+			if _, ok := sinkTable[exprString(c.Fun)]; ok {
+				s.sinks = true
+			}
+		}
+		return true
+	})
+	if s.why != "" {
+		return s
+	}
+	// pointer parameters the body writes through
+	for _, prm := range s.params {
+		if prm.t.k != kPtr {
+			continue
+		}
+		through := false
+		ast.Inspect(s.body, func(x ast.Node) bool {
+			switch v := x.(type) {
+			case *ast.AssignStmt:
+				for _, l := range v.Lhs {
+					if r := lvalueRoot(l); r != nil && r != l && leanVar(r.Name) == prm.name {
+						through = true
+					}
+				}
+			case *ast.IncDecStmt:
+				if r := lvalueRoot(v.X); r != nil && r != v.X && leanVar(r.Name) == prm.name {
+					through = true
+				}
+			case *ast.CallExpr:
+				n := calleeName(v.Fun)
+				if _, ok := stdlibProcTable[n]; (ok || n == "copy") && len(v.Args) > 0 {
+					if r := lvalueRoot(v.Args[0]); r != nil && r != v.Args[0] && leanVar(r.Name) == prm.name {
+						through = true
+					}
+				}
+			}
+			return true
+		})
+		if through {
+			s.ptrout = append(s.ptrout, prm.name)
+		}
+	}
 	s.ok = true
 	return s
+}
+
+// lvalueRoot returns the variable at the root of an lvalue path x.f[i].g …, or nil.
+func lvalueRoot(e ast.Expr) *ast.Ident {
+	for {
+		switch r := e.(type) {
+		case *ast.IndexExpr:
+			e = r.X
+			continue
+		case *ast.SelectorExpr:
+			e = r.X
+			continue
+		case *ast.ParenExpr:
+			e = r.X
+			continue
+		case *ast.Ident:
+			return r
+		}
+		return nil
+	}
+}
+
+// calleeOf resolves a call to the signature of a translated function, given the types of the caller's parameters.
+func (g *trGen) calleeOf(caller *trSig, c *ast.CallExpr) (*trSig, []ast.Expr) {
+	switch fn := c.Fun.(type) {
+	case *ast.Ident:
+		if sig := g.sigs[fn.Name]; sig != nil {
+			return sig, c.Args
+		}
+	case *ast.SelectorExpr:
+		if id, ok := fn.X.(*ast.Ident); ok {
+			if ht, ok := caller.handles[id.Name]; ok {
+				if sig := g.sigs[ht+"_"+fn.Sel.Name]; sig != nil {
+					return sig, c.Args
+				}
+				return nil, nil
+			}
+			if t, ok := caller.paramType(leanVar(id.Name)); ok && (t.k == kPtr || t.k == kStruct) {
+				if sig := g.sigs[t.name+"_"+fn.Sel.Name]; sig != nil {
+					return sig, append([]ast.Expr{fn.X}, c.Args...)
+				}
+			}
+		}
+	}
+	return nil, nil
+}
+
+// propagate closes `sinks` and `ptrout` over calls between targets (a caller of a sink function has sinks; a pointer
+// parameter passed to a ptrout parameter of a callee is written through).
+func (g *trGen) propagate(names []string) {
+	for changed := true; changed; {
+		changed = false
+		for _, n := range names {
+			s := g.sigs[n]
+			if !s.ok {
+				continue
+			}
+			ast.Inspect(s.body, func(x ast.Node) bool {
+				c, ok := x.(*ast.CallExpr)
+				if !ok {
+					return true
+				}
+				callee, args := g.calleeOf(s, c)
+				if callee == nil || !callee.ok {
+					return true
+				}
+				if callee.sinks && !s.sinks {
+					s.sinks, changed = true, true
+				}
+				for i, a := range args {
+					if i >= len(callee.params) || !callee.isPtrout(callee.params[i].name) {
+						continue
+					}
+					if id, ok := a.(*ast.Ident); ok {
+						if t, ok := s.paramType(leanVar(id.Name)); ok && t.k == kPtr && !s.isPtrout(leanVar(id.Name)) {
+							s.ptrout = append(s.ptrout, leanVar(id.Name))
+							changed = true
+						}
+					}
+				}
+				return true
+			})
+		}
+	}
+	// deterministic order: parameter order
+	for _, n := range names {
+		s := g.sigs[n]
+		var ord []string
+		for _, p := range s.params {
+			if s.isPtrout(p.name) {
+				ord = append(ord, p.name)
+			}
+		}
+		s.ptrout = ord
+	}
 }
 
 // ---------------------------------------------------------------------------------------------
@@ -882,10 +1280,10 @@ func (f *ftr) unify(n ast.Node, a, b gty) gty {
 	if fits(b, a) {
 		return a
 	}
-	if a.k == kNil && (b.k == kPtr || b.k == kMap || b.k == kErr) {
+	if a.k == kNil && (b.k == kPtr || b.k == kMap || b.k == kErr || b.k == kMapMap) {
 		return b
 	}
-	if b.k == kNil && (a.k == kPtr || a.k == kMap || a.k == kErr) {
+	if b.k == kNil && (a.k == kPtr || a.k == kMap || a.k == kErr || a.k == kMapMap) {
 		return a
 	}
 	f.fail(n, "operands of different types (%s vs %s)", a.lean(), b.lean())
@@ -912,6 +1310,9 @@ func (f *ftr) expr(e ast.Expr) xr {
 		if c, t, ok := f.pkgConst(v); ok {
 			return xr{c, t, false}
 		}
+		if _, ok := f.sig.handles[v.Name]; ok {
+			f.fail(v, "handle parameter %s used outside a sink call / environment read", v.Name)
+		}
 		f.fail(v, "identifier %s is neither a local variable nor a package constant", v.Name)
 	case *ast.UnaryExpr:
 		x := f.expr(v.X)
@@ -935,9 +1336,18 @@ func (f *ftr) expr(e ast.Expr) xr {
 				if s.t.k == kStruct {
 					return xr{"(some " + s.code + ")", gty{k: kPtr, name: s.t.name}, s.eff}
 				}
+			} else if s := f.expr(v.X); s.t.k == kStruct {
+				// &x: a pointer to (a copy of) an addressable struct; writes through it are assigned back by callExtras
+				return xr{"(some " + s.code + ")", gty{k: kPtr, name: s.t.name}, s.eff}
 			}
 		}
 		f.fail(v, "unary operator %s", v.Op)
+	case *ast.StarExpr:
+		x := f.expr(v.X)
+		if x.t.k != kPtr {
+			f.fail(v, "* on %s", x.t.lean())
+		}
+		return xr{"(← deref " + x.code + ")", gty{k: kStruct, name: x.t.name}, true}
 	case *ast.BinaryExpr:
 		return f.binary(v)
 	case *ast.IndexExpr:
@@ -947,12 +1357,19 @@ func (f *ftr) expr(e ast.Expr) xr {
 			f.assignable(v, gty{k: kStr}, k.t)
 			return xr{"(mapGet " + x.code + " " + k.code + ")", gty{k: kStr}, x.eff || k.eff}
 		}
+		if x.t.k == kMapMap {
+			k := f.expr(v.Index)
+			f.assignable(v, gty{k: kStr}, k.t)
+			return xr{"(mapGet2 " + x.code + " " + k.code + ")", gty{k: kMap}, x.eff || k.eff}
+		}
 		i := f.intExpr(v.Index)
 		switch x.t.k {
 		case kStr:
 			return xr{"(← atI " + x.code + " " + i.code + ")", gty{k: kByte}, true}
 		case kStrs:
 			return xr{"(← atL " + x.code + " " + i.code + ")", gty{k: kStr}, true}
+		case kStructs:
+			return xr{"(← atA " + x.code + " " + i.code + ")", gty{k: kStruct, name: x.t.name}, true}
 		}
 		f.fail(v, "index expression on %s", x.t.lean())
 	case *ast.SliceExpr:
@@ -972,6 +1389,8 @@ func (f *ftr) expr(e ast.Expr) xr {
 			return xr{"(← sliceI " + x.code + " " + lo + " " + hi + ")", x.t, true}
 		case kStrs:
 			return xr{"(← sliceL " + x.code + " " + lo + " " + hi + ")", x.t, true}
+		case kStructs:
+			return xr{"(← sliceA " + x.code + " " + lo + " " + hi + ")", x.t, true}
 		}
 		f.fail(v, "slice expression on %s", x.t.lean())
 	case *ast.SelectorExpr:
@@ -995,6 +1414,13 @@ func (f *ftr) intExpr(e ast.Expr) xr {
 }
 
 func (f *ftr) selector(v *ast.SelectorExpr) xr {
+	if id, ok := v.X.(*ast.Ident); ok {
+		if _, isLocal := f.lookup(id.Name); !isLocal {
+			if c, ok := pkgQualifiedConsts[id.Name+"."+v.Sel.Name]; ok {
+				return xr{fmt.Sprintf("(%s : Int) /-%s.%s-/", c, id.Name, v.Sel.Name), gty{k: kInt}, false}
+			}
+		}
+	}
 	x := f.expr(v.X)
 	st := x.t.name
 	if x.t.k != kPtr && x.t.k != kStruct {
@@ -1019,9 +1445,9 @@ func (f *ftr) zero(n ast.Node, t gty) string {
 		return "0"
 	case kBool:
 		return "false"
-	case kStr, kStrs:
+	case kStr, kStrs, kStructs:
 		return "[]"
-	case kPtr, kMap, kErr:
+	case kPtr, kMap, kErr, kMapMap:
 		return "none"
 	case kStruct:
 		return f.structVal(n, t.name, map[string]string{})
@@ -1046,7 +1472,7 @@ func (f *ftr) structVal(n ast.Node, st string, vals map[string]string) string {
 		}
 		parts = append(parts, leanField(st, fld)+" := "+v)
 	}
-	return "({ " + strings.Join(parts, ", ") + " } : " + st + ")"
+	return "({ " + strings.Join(parts, ", ") + " } : " + leanStruct(st) + ")"
 }
 
 func (f *ftr) compositeLit(v *ast.CompositeLit) xr {
@@ -1068,6 +1494,26 @@ func (f *ftr) compositeLit(v *ast.CompositeLit) xr {
 			return xr{"([] : Bytes)", t, false}
 		}
 		return xr{"([" + strings.Join(parts, ", ") + "] : Bytes)", t, false}
+	case kStrs, kStructs: // []string{…} / []S{…}
+		var parts []string
+		eff := false
+		want := gty{k: kStr}
+		if t.k == kStructs {
+			want = gty{k: kStruct, name: t.name}
+		}
+		for _, el := range v.Elts {
+			if _, isKV := el.(*ast.KeyValueExpr); isKV {
+				f.fail(el, "keyed slice literal")
+			}
+			x := f.expr(el)
+			f.assignable(el, want, x.t)
+			parts = append(parts, x.code)
+			eff = eff || x.eff
+		}
+		if len(parts) == 0 {
+			return xr{"([] : " + t.lean() + ")", t, false}
+		}
+		return xr{"([" + strings.Join(parts, ", ") + "] : " + t.lean() + ")", t, eff}
 	case kStruct:
 		vals := map[string]string{}
 		eff := false
@@ -1099,7 +1545,7 @@ func (f *ftr) assignable(n ast.Node, dst, src gty) {
 	if (dst.k == kInt && src.k == kUInt) || (dst.k == kByte && (src.k == kUInt || src.k == kURune)) {
 		return
 	}
-	if (dst.k == kPtr || dst.k == kMap || dst.k == kErr) && src.k == kNil {
+	if (dst.k == kPtr || dst.k == kMap || dst.k == kErr || dst.k == kMapMap) && src.k == kNil {
 		return
 	}
 	f.fail(n, "cannot assign %s to %s", src.lean(), dst.lean())
@@ -1130,7 +1576,7 @@ func (f *ftr) binary(v *ast.BinaryExpr) xr {
 			if a.t.k == kNil {
 				x = b
 			}
-			if x.t.k != kPtr && x.t.k != kMap && x.t.k != kErr {
+			if x.t.k != kPtr && x.t.k != kMap && x.t.k != kErr && x.t.k != kMapMap {
 				f.fail(v, "nil comparison on %s", x.t.lean())
 			}
 			m := ".isNone"
@@ -1166,6 +1612,16 @@ func (f *ftr) binary(v *ast.BinaryExpr) xr {
 			f.fail(v, "arithmetic on %s", t.lean())
 		}
 		return xr{"(" + a.code + " " + v.Op.String() + " " + b.code + ")", t, a.eff || b.eff}
+	case token.QUO:
+		// integer division truncates towards zero; a zero divisor panics
+		t := f.unify(v, a.t, b.t)
+		if t.k != kInt && t.k != kUInt {
+			f.fail(v, "/ on %s", t.lean())
+		}
+		if lit, ok := v.Y.(*ast.BasicLit); ok && lit.Kind == token.INT && lit.Value != "0" {
+			return xr{"(Int.tdiv " + a.code + " " + b.code + ")", gty{k: kInt}, a.eff}
+		}
+		return xr{"(← divI " + a.code + " " + b.code + ")", gty{k: kInt}, true}
 	}
 	f.fail(v, "binary operator %s", v.Op)
 	return xr{}
@@ -1207,15 +1663,47 @@ func calleeName(e ast.Expr) string {
 		if x, ok := v.X.(*ast.Ident); ok {
 			return x.Name + "." + v.Sel.Name
 		}
+		if inner := calleeName(v.X); inner != "" {
+			return inner + "." + v.Sel.Name
+		}
 	}
 	return ""
 }
 
 func (f *ftr) call(v *ast.CallExpr) xr {
 	if v.Ellipsis.IsValid() {
-		// only append(a, b...) – handled below
+		// append(a, b...) – handled below; F(xs...) of a variadic translated function – handled by callTarget
 		if id, ok := v.Fun.(*ast.Ident); !ok || id.Name != "append" {
-			f.fail(v, "variadic call")
+			if sig := f.calleeSigSafe(v); sig == nil || !sig.variadic {
+				f.fail(v, "variadic call")
+			}
+		}
+	}
+	// environment read: the value is a parameter of the generated function
+	if er, ok := envReadTable[exprString(v.Fun)+"()"]; ok && len(v.Args) == 0 {
+		if f.loop != nil {
+			f.fail(v, "environment read %s() inside a loop", exprString(v.Fun))
+		}
+		key := exprString(v.Fun) + "()"
+		for _, e := range f.sig.envs {
+			if e == key {
+				f.fail(v, "environment read %s occurs more than once", key)
+			}
+		}
+		f.sig.envs = append(f.sig.envs, key)
+		return xr{er.param, gty{k: er.k}, false}
+	}
+	// methods of time.Time / time.Duration values
+	if sel, ok := v.Fun.(*ast.SelectorExpr); ok && len(v.Args) == 1 {
+		if tm, ok := timeMethodTable[sel.Sel.Name]; ok {
+			if rt := f.tryExprType(sel.X); rt != nil && rt.k == kInt {
+				x, y := f.expr(sel.X), f.expr(v.Args[0])
+				if y.t.k != kInt {
+					f.fail(v, "time method %s on %s", sel.Sel.Name, y.t.lean())
+				}
+				code := strings.ReplaceAll(strings.ReplaceAll(tm.tmpl, "$0", x.code), "$1", y.code)
+				return xr{code, gty{k: tm.ret}, x.eff || y.eff}
+			}
 		}
 	}
 	// conversions
@@ -1238,7 +1726,7 @@ func (f *ftr) call(v *ast.CallExpr) xr {
 	case "len":
 		x := f.expr(v.Args[0])
 		switch x.t.k {
-		case kStr, kStrs:
+		case kStr, kStrs, kStructs:
 			return xr{"(len " + x.code + ")", gty{k: kInt}, x.eff}
 		case kMap:
 			return xr{"(mapLen " + x.code + ")", gty{k: kInt}, x.eff}
@@ -1247,6 +1735,20 @@ func (f *ftr) call(v *ast.CallExpr) xr {
 	case "make":
 		if t, ok := f.g.goType(v.Args[0]); ok && t.k == kMap && len(v.Args) == 1 {
 			return xr{"(some ([] : Tags))", t, false}
+		}
+		if t, ok := f.g.goType(v.Args[0]); ok && t.k == kMapMap && len(v.Args) == 1 {
+			return xr{"(some ([] : AMap (Option Tags)))", t, false}
+		}
+		if t, ok := f.g.goType(v.Args[0]); ok && (t.k == kStructs || t.k == kStrs || t.k == kStr) && len(v.Args) == 2 {
+			n := f.intExpr(v.Args[1])
+			elt := gty{k: kStr}
+			switch t.k {
+			case kStructs:
+				elt = gty{k: kStruct, name: t.name}
+			case kStr:
+				elt = gty{k: kByte}
+			}
+			return xr{"(← makeA " + f.zero(v, elt) + " " + n.code + ")", t, true}
 		}
 		f.fail(v, "make of a type outside the subset")
 	case "new":
@@ -1265,8 +1767,10 @@ func (f *ftr) call(v *ast.CallExpr) xr {
 		}
 		y := f.expr(v.Args[1])
 		switch {
-		case v.Ellipsis.IsValid() && x.t.k == y.t.k && (x.t.k == kStr || x.t.k == kStrs):
+		case v.Ellipsis.IsValid() && x.t.k == y.t.k && x.t.name == y.t.name && (x.t.k == kStr || x.t.k == kStrs || x.t.k == kStructs):
 			return xr{"(" + x.code + " ++ " + y.code + ")", x.t, x.eff || y.eff}
+		case !v.Ellipsis.IsValid() && x.t.k == kStructs && y.t.k == kStruct && x.t.name == y.t.name:
+			return xr{"(" + x.code + " ++ [" + y.code + "])", x.t, x.eff || y.eff}
 		case !v.Ellipsis.IsValid() && x.t.k == kStrs && y.t.k == kStr:
 			return xr{"(" + x.code + " ++ [" + y.code + "])", x.t, x.eff || y.eff}
 		case !v.Ellipsis.IsValid() && x.t.k == kStr && (y.t.k == kByte || isUntyped(y.t)):
@@ -1303,8 +1807,21 @@ func (f *ftr) call(v *ast.CallExpr) xr {
 				i++
 				continue
 			}
+			if strings.HasPrefix(format[i:], "%s") && argi < len(v.Args) {
+				// %s of a string argument: the bytes of the string
+				flush()
+				a := f.expr(v.Args[argi])
+				if a.t.k != kStr {
+					f.fail(v, "fmt.Sprintf %%s of %s", a.t.lean())
+				}
+				argi++
+				eff = eff || a.eff
+				parts = append(parts, a.code)
+				i++
+				continue
+			}
 			if !strings.HasPrefix(format[i:], "%02d") || argi >= len(v.Args) {
-				f.fail(v, "fmt.Sprintf format %q (only literal text and %%02d are modelled)", format)
+				f.fail(v, "fmt.Sprintf format %q (only literal text, %%s of strings and %%02d are modelled)", format)
 			}
 			flush()
 			a := f.intExpr(v.Args[argi])
@@ -1321,6 +1838,14 @@ func (f *ftr) call(v *ast.CallExpr) xr {
 			return xr{"([] : Bytes)", gty{k: kStr}, false}
 		}
 		return xr{"(" + strings.Join(parts, " ++ ") + ")", gty{k: kStr}, eff}
+	}
+	if name == "errors.New" && len(v.Args) == 1 {
+		// the message is evaluated (its panics are kept) and then abstracted away
+		x := f.expr(v.Args[0])
+		if x.t.k != kStr {
+			f.fail(v, "errors.New of %s", x.t.lean())
+		}
+		return xr{"(errOf " + x.code + ")", gty{k: kErr}, x.eff}
 	}
 	if name == "fmt.Errorf" {
 		// an error VALUE: non-nil, message text abstracted.  The arguments must be expressions of the subset
@@ -1441,6 +1966,14 @@ func (f *ftr) callTarget(v *ast.CallExpr, allowMulti bool) (xr, bool) {
 		sig = f.g.sigs[fn.Name]
 		args = v.Args
 	case *ast.SelectorExpr:
+		// method of a handle parameter: the receiver is dropped
+		if id, ok := fn.X.(*ast.Ident); ok {
+			if ht, ok := f.sig.handles[id.Name]; ok {
+				sig = f.g.sigs[ht+"_"+fn.Sel.Name]
+				args = v.Args
+				break
+			}
+		}
 		// method call x.M(…): find the receiver type
 		rx := f.tryExprType(fn.X)
 		if rx == nil || (rx.k != kPtr && rx.k != kStruct && rx.k != kMap) {
@@ -1462,8 +1995,34 @@ func (f *ftr) callTarget(v *ast.CallExpr, allowMulti bool) (xr, bool) {
 	if why := f.g.ensure(sig.name); why != "" {
 		f.fail(v, "callee %s is itself unsupported (%s)", sig.name, why)
 	}
-	if len(args) != len(sig.params) {
+	var packed *xr
+	if sig.variadic && !v.Ellipsis.IsValid() {
+		// pack the trailing arguments into the slice parameter
+		nfix := len(sig.params) - 1
+		if len(args) < nfix {
+			f.fail(v, "call of %s with %d arguments", sig.name, len(args))
+		}
+		vt := sig.params[nfix].t
+		elt := gty{k: kStr}
+		if vt.k == kStructs {
+			elt = gty{k: kStruct, name: vt.name}
+		}
+		var parts []string
+		eff := false
+		for _, a := range args[nfix:] {
+			x := f.expr(a)
+			f.assignable(a, elt, x.t)
+			parts = append(parts, x.code)
+			eff = eff || x.eff
+		}
+		packed = &xr{"([" + strings.Join(parts, ", ") + "] : " + vt.lean() + ")", vt, eff}
+		args = args[:nfix]
+	}
+	if packed == nil && len(args) != len(sig.params) {
 		f.fail(v, "call of %s with %d arguments", sig.name, len(args))
+	}
+	if len(sig.envs) > 0 {
+		f.fail(v, "call of %s, which reads the environment (its parameters are not threaded through callers)", sig.name)
 	}
 	if len(sig.mapout) > 0 {
 		f.fail(v, "call of %s, which assigns entries of its map argument", sig.name)
@@ -1475,8 +2034,23 @@ func (f *ftr) callTarget(v *ast.CallExpr, allowMulti bool) (xr, bool) {
 	code := sig.name
 	for i, a := range args {
 		x := f.expr(a)
+		if sig.params[i].t.k == kPtr && x.t.k == kStruct && x.t.name == sig.params[i].t.name {
+			// addressable struct value as the receiver / argument of a pointer method: (&x).M()
+			if ue, ok := a.(*ast.UnaryExpr); !(ok && ue.Op == token.AND) {
+				x = xr{"(some " + x.code + ")", sig.params[i].t, x.eff}
+			}
+		}
 		f.assignable(a, sig.params[i].t, x.t)
 		code += " " + x.code
+	}
+	if packed != nil {
+		code += " " + packed.code
+	}
+	if len(sig.ptrout) > 0 || sig.sinks {
+		if !allowMulti {
+			f.fail(v, "call of %s (it writes through a pointer / calls a sink) in expression position", sig.name)
+		}
+		return xr{"(← " + code + ")", gty{}, true}, true // statement-level only; handled by callExtras
 	}
 	if len(sig.inout) > 0 {
 		return xr{code, gty{}, true}, true // statement-level only; handled by the caller
@@ -1502,12 +2076,7 @@ func (f *ftr) tryExprType(e ast.Expr) *gty {
 		xt := f.tryExprType(v.X)
 		if xt != nil && (xt.k == kPtr || xt.k == kStruct) {
 			if ft, ok := f.g.structFieldType(xt.name, v.Sel.Name); ok {
-				if ft.k == kPtr || ft.k == kStruct {
-					return &ft
-				}
-				if ft.k == kMap {
-					return &ft
-				}
+				return &ft
 			}
 		}
 	}
@@ -1534,6 +2103,10 @@ func (f *ftr) retCode(vals []string) string {
 		} else {
 			all = append(all, m)
 		}
+	}
+	all = append(all, f.sig.ptrout...)
+	if f.sig.sinks {
+		all = append(all, "outs_")
 	}
 	v := tupleVal(all)
 	if f.loop != nil {
@@ -1829,6 +2402,9 @@ func (f *ftr) assign(v *ast.AssignStmt, ind int, em *emitter) {
 		if call, ok := v.Rhs[0].(*ast.CallExpr); ok && len(v.Rhs) == 1 {
 			if x, ok := f.callTarget(call, true); ok {
 				sig := f.calleeSig(call)
+				if len(sig.ptrout) > 0 || sig.sinks {
+					f.fail(v, "results of %s (it writes through a pointer / calls a sink) are used", sig.name)
+				}
 				if len(sig.inout) == 0 && len(sig.rets) == len(v.Lhs) {
 					var pats []string
 					for i, l := range v.Lhs {
@@ -1881,7 +2457,8 @@ func (f *ftr) assignTo(lhs ast.Expr, val xr, n ast.Node, ind int, em *emitter) {
 	case *ast.IndexExpr:
 		id, ok := l.X.(*ast.Ident)
 		if !ok {
-			f.fail(n, "element assignment to a non-variable")
+			f.assignPath(lhs, val, n, ind, em)
+			return
 		}
 		t, _ := f.lookup(id.Name)
 		if t.k == kMap {
@@ -1898,6 +2475,10 @@ func (f *ftr) assignTo(lhs ast.Expr, val xr, n ast.Node, ind int, em *emitter) {
 			}
 			return
 		}
+		if t.k == kStrs || t.k == kStructs || t.k == kMapMap {
+			f.assignPath(lhs, val, n, ind, em)
+			return
+		}
 		if t.k != kStr {
 			f.fail(n, "element assignment on %s", t.lean())
 		}
@@ -1908,7 +2489,8 @@ func (f *ftr) assignTo(lhs ast.Expr, val xr, n ast.Node, ind int, em *emitter) {
 	case *ast.SelectorExpr:
 		id, ok := l.X.(*ast.Ident)
 		if !ok {
-			f.fail(n, "field assignment through a non-variable")
+			f.assignPath(lhs, val, n, ind, em)
+			return
 		}
 		t, ok := f.lookup(id.Name)
 		if !ok || (t.k != kPtr && t.k != kStruct) {
@@ -1920,7 +2502,7 @@ func (f *ftr) assignTo(lhs ast.Expr, val xr, n ast.Node, ind int, em *emitter) {
 		}
 		f.assignable(n, ft, val.t)
 		name := f.lv(id.Name)
-		if f.isParam(id.Name) {
+		if f.isParam(id.Name) && !(t.k == kPtr && f.sig.isPtrout(name)) {
 			f.fail(n, "field assignment through parameter %s (caller-visible mutation)", id.Name)
 		}
 		if t.k == kPtr {
@@ -1931,6 +2513,84 @@ func (f *ftr) assignTo(lhs ast.Expr, val xr, n ast.Node, ind int, em *emitter) {
 		return
 	}
 	f.fail(n, "assignment target %T", lhs)
+}
+
+// assignPath assigns to a general lvalue path x.f[i].g …: the new value of the root variable is rebuilt from the inside
+// out (`{ x with f := (← setA x.f i { (← atA x.f i) with g := v }) }`).  The right-hand side has been evaluated before.
+func (f *ftr) assignPath(lhs ast.Expr, val xr, n ast.Node, ind int, em *emitter) {
+	switch l := lhs.(type) {
+	case *ast.ParenExpr:
+		f.assignPath(l.X, val, n, ind, em)
+	case *ast.Ident:
+		t, ok := f.lookup(l.Name)
+		if !ok {
+			f.fail(n, "assignment to unknown variable %s", l.Name)
+		}
+		if f.isParam(l.Name) && t.k == kPtr && !f.sig.isPtrout(f.lv(l.Name)) {
+			f.fail(n, "assignment through pointer parameter %s", l.Name)
+		}
+		f.assignable(n, t, val.t)
+		if f.isParam(l.Name) && (t.k == kMap || t.k == kMapMap) {
+			f.fail(n, "assignment into an entry of map parameter %s through a path", l.Name)
+		}
+		em.add(ind, f.lv(l.Name)+" := "+val.code)
+	case *ast.IndexExpr:
+		c := f.expr(l.X)
+		if c.t.k == kMap || c.t.k == kMapMap {
+			// m[k] = v on a map value (`out[a][b] = v`: the inner map is written back into the outer one – maps are
+			// values here; faithful as long as no two entries share an inner map, §2.5)
+			k := f.expr(l.Index)
+			f.assignable(n, gty{k: kStr}, k.t)
+			fn, want := "mapSet", gty{k: kStr}
+			if c.t.k == kMapMap {
+				fn, want = "mapSet2", gty{k: kMap}
+			}
+			if val.t.k == kNil {
+				val = xr{"none", want, false}
+			}
+			f.assignable(n, want, val.t)
+			f.assignPath(l.X, xr{fmt.Sprintf("(← %s %s %s %s)", fn, c.code, k.code, val.code), c.t, true}, n, ind, em)
+			return
+		}
+		i := f.intExpr(l.Index)
+		var code string
+		switch c.t.k {
+		case kStr:
+			f.assignable(n, gty{k: kByte}, val.t)
+			code = fmt.Sprintf("(← setI %s %s %s)", c.code, i.code, val.code)
+		case kStrs:
+			f.assignable(n, gty{k: kStr}, val.t)
+			code = fmt.Sprintf("(← setA %s %s %s)", c.code, i.code, val.code)
+		case kStructs:
+			f.assignable(n, gty{k: kStruct, name: c.t.name}, val.t)
+			code = fmt.Sprintf("(← setA %s %s %s)", c.code, i.code, val.code)
+		default:
+			f.fail(n, "element assignment on %s", c.t.lean())
+		}
+		f.assignPath(l.X, xr{code, c.t, true}, n, ind, em)
+	case *ast.SelectorExpr:
+		c := f.expr(l.X)
+		if c.t.k != kPtr && c.t.k != kStruct {
+			f.fail(n, "field assignment on %s", c.t.lean())
+		}
+		ft, modelled := f.g.structFieldType(c.t.name, l.Sel.Name)
+		if !modelled {
+			f.fail(n, "assignment to field %s.%s, which is outside the model", c.t.name, l.Sel.Name)
+		}
+		f.assignable(n, ft, val.t)
+		fld := leanField(c.t.name, l.Sel.Name)
+		var code string
+		if c.t.k == kPtr {
+			code = fmt.Sprintf("(some { %s with %s := %s })", c.code, fld, val.code)
+			// c.code is `x`; the pointee is read through deref
+			code = fmt.Sprintf("(some { (← deref %s) with %s := %s })", c.code, fld, val.code)
+		} else {
+			code = fmt.Sprintf("{ %s with %s := %s }", c.code, fld, val.code)
+		}
+		f.assignPath(l.X, xr{code, c.t, true}, n, ind, em)
+	default:
+		f.fail(n, "assignment target %T", lhs)
+	}
 }
 
 func (f *ftr) isParam(name string) bool {
@@ -1953,13 +2613,49 @@ func (f *ftr) exprStmt(v *ast.ExprStmt, ind int, em *emitter) {
 		}
 		id, ok := call.Args[0].(*ast.Ident)
 		if !ok {
-			f.fail(v, "%s of a non-variable", calleeName(call.Fun))
+			// a field path rooted at a local / a written-through pointer parameter: `sort.Strings(u.ChannelList)`
+			x := f.expr(call.Args[0])
+			if x.t.k != pr.arg {
+				f.fail(v, "%s: argument of the wrong type", calleeName(call.Fun))
+			}
+			f.assignPath(call.Args[0], xr{"(" + pr.fn + " " + x.code + ")", x.t, x.eff}, v, ind, em)
+			return
 		}
 		t, ok := f.lookup(id.Name)
 		if !ok || t.k != pr.arg || f.isParam(id.Name) {
 			f.fail(v, "%s: the argument must be a local variable of the expected type (a parameter would alias the caller's slice)", calleeName(call.Fun))
 		}
 		em.add(ind, fmt.Sprintf("%s := (%s %s)", f.lv(id.Name), pr.fn, f.lv(id.Name)))
+		return
+	}
+	if calleeName(call.Fun) == "copy" && len(call.Args) == 2 {
+		// copy(dst, src), count discarded; dst is an lvalue path (value semantics: dst and src do not overlap)
+		d, sx := f.expr(call.Args[0]), f.expr(call.Args[1])
+		if d.t.k != sx.t.k || d.t.name != sx.t.name || (d.t.k != kStr && d.t.k != kStrs && d.t.k != kStructs) {
+			f.fail(v, "copy(%s, %s)", d.t.lean(), sx.t.lean())
+		}
+		if r := lvalueRoot(call.Args[0]); r == nil || (f.isParam(r.Name) && r == call.Args[0]) {
+			f.fail(v, "copy into a parameter slice (it would alias the caller's slice)")
+		}
+		f.assignPath(call.Args[0], xr{"(copyA " + d.code + " " + sx.code + ")", d.t, d.eff || sx.eff}, v, ind, em)
+		return
+	}
+	if ctor, ok := sinkTable[exprString(call.Fun)]; ok {
+		if root := lvalueRoot(call.Fun.(*ast.SelectorExpr).X); root == nil || f.sig.handles[root.Name] == "" {
+			f.fail(v, "sink call %s whose root is not a handle parameter", exprString(call.Fun))
+		}
+		if len(call.Args) != 1 {
+			f.fail(v, "sink call with %d arguments", len(call.Args))
+		}
+		x := f.expr(call.Args[0])
+		if x.t.k != kPtr || x.t.name != "Event" {
+			f.fail(v, "sink argument of type %s", x.t.lean())
+		}
+		arg := "(← deref " + x.code + ")"
+		if strings.HasPrefix(x.code, "(some ") && strings.HasSuffix(x.code, ")") && balanced(x.code[len("(some "):len(x.code)-1]) {
+			arg = x.code[len("(some ") : len(x.code)-1] // &Event{…}: never nil
+		}
+		em.add(ind, fmt.Sprintf("outs_ := outs_ ++ [%s %s]", ctor, arg))
 		return
 	}
 	if sel, ok := call.Fun.(*ast.SelectorExpr); ok {
@@ -1985,6 +2681,10 @@ func (f *ftr) exprStmt(v *ast.ExprStmt, ind int, em *emitter) {
 	// a translated function with in-out buffer parameters, results ignored
 	if x, ok := f.callTarget(call, true); ok {
 		sig := f.calleeSig(call)
+		if len(sig.ptrout) > 0 || sig.sinks {
+			f.callExtras(call, sig, x, ind, em)
+			return
+		}
 		if len(sig.inout) == 0 {
 			em.add(ind, "let _ ← "+strings.TrimSuffix(strings.TrimPrefix(x.code, "(← "), ")"))
 			return
@@ -2021,11 +2721,82 @@ func (f *ftr) exprStmt(v *ast.ExprStmt, ind int, em *emitter) {
 	f.fail(v, "call statement %s", exprString(call.Fun))
 }
 
+// callExtras emits a call STATEMENT of a translated function that writes through pointer parameters and / or calls sinks:
+// the ordinary results are discarded, the new pointees are assigned back to the argument variables and the callee's
+// outputs are appended to `outs_`.
+func (f *ftr) callExtras(call *ast.CallExpr, sig *trSig, x xr, ind int, em *emitter) {
+	if len(sig.inout) > 0 || len(sig.mapout) > 0 {
+		f.fail(call, "call of %s, which has buffer / map results as well as pointer / sink results", sig.name)
+	}
+	args := call.Args
+	if sel, isSel := call.Fun.(*ast.SelectorExpr); isSel {
+		if id, ok := sel.X.(*ast.Ident); !ok || f.sig.handles[id.Name] == "" {
+			args = append([]ast.Expr{sel.X}, call.Args...)
+		}
+	}
+	var pats []string
+	for range sig.rets {
+		pats = append(pats, "_")
+	}
+	type back struct {
+		arg ast.Expr
+		tmp string
+		t   gty
+	}
+	var backs []back
+	for i, p := range sig.params {
+		if !sig.isPtrout(p.name) {
+			continue
+		}
+		f.ntmp++
+		tmp := fmt.Sprintf("po%d_", f.ntmp)
+		pats = append(pats, tmp)
+		backs = append(backs, back{args[i], tmp, p.t})
+	}
+	otmp := ""
+	if sig.sinks {
+		f.ntmp++
+		otmp = fmt.Sprintf("os%d_", f.ntmp)
+		pats = append(pats, otmp)
+	}
+	code := strings.TrimSuffix(strings.TrimPrefix(x.code, "(← "), ")")
+	if len(pats) == 1 {
+		em.add(ind, "let "+pats[0]+" ← "+code)
+	} else {
+		em.add(ind, "let ("+strings.Join(pats, ", ")+") ← "+code)
+	}
+	for _, b := range backs {
+		switch a := b.arg.(type) {
+		case *ast.UnaryExpr: // &x for a struct variable / field path x
+			if a.Op != token.AND {
+				f.fail(call, "pointer argument form")
+			}
+			f.assignPath(a.X, xr{"(← deref " + b.tmp + ")", gty{k: kStruct, name: b.t.name}, true}, call, ind, em)
+		default:
+			// a pointer variable, or an addressable struct used as the receiver of a pointer method (x.M() = (&x).M())
+			at := f.expr(b.arg).t
+			if at.k == kStruct {
+				f.assignPath(b.arg, xr{"(← deref " + b.tmp + ")", at, true}, call, ind, em)
+			} else {
+				f.assignPath(b.arg, xr{b.tmp, b.t, false}, call, ind, em)
+			}
+		}
+	}
+	if otmp != "" {
+		em.add(ind, "outs_ := outs_ ++ "+otmp)
+	}
+}
+
 func (f *ftr) calleeSig(v *ast.CallExpr) *trSig {
 	switch fn := v.Fun.(type) {
 	case *ast.Ident:
 		return f.g.sigs[fn.Name]
 	case *ast.SelectorExpr:
+		if id, ok := fn.X.(*ast.Ident); ok {
+			if ht, ok := f.sig.handles[id.Name]; ok {
+				return f.g.sigs[ht+"_"+fn.Sel.Name]
+			}
+		}
 		rx := f.tryExprType(fn.X)
 		recv := rx.name
 		if rx.k == kMap {
@@ -2079,8 +2850,34 @@ func (f *ftr) ifStmt(v *ast.IfStmt, ind int, em *emitter) bool {
 }
 
 func (f *ftr) switchStmt(v *ast.SwitchStmt, ind int, em *emitter) bool {
-	if v.Init != nil || v.Tag != nil {
-		f.fail(v, "switch with an init statement or a tag")
+	if v.Init != nil {
+		f.fail(v, "switch with an init statement")
+	}
+	tagVar := ""
+	var tagT gty
+	if v.Tag != nil {
+		// the tag is evaluated once; each case is an equality test against it, in order
+		t := f.expr(v.Tag)
+		switch t.t.k {
+		case kStr, kByte, kInt, kUInt, kURune, kBool:
+		default:
+			f.fail(v, "switch on %s", t.t.lean())
+		}
+		tagT = f.defType(v, t.t)
+		f.ntmp++
+		tagVar = fmt.Sprintf("sw%d_", f.ntmp)
+		em.add(ind, fmt.Sprintf("let %s : %s := %s", tagVar, tagT.lean(), t.code))
+	}
+	caseCond := func(e ast.Expr) string {
+		if tagVar == "" {
+			return f.cond(e)
+		}
+		x := f.expr(e)
+		f.unify(e, tagT, x.t)
+		if x.eff {
+			f.fail(e, "case expression that can panic")
+		}
+		return "(" + tagVar + " == " + x.code + ")"
 	}
 	all := true
 	hasDefault := false
@@ -2094,14 +2891,18 @@ func (f *ftr) switchStmt(v *ast.SwitchStmt, ind int, em *emitter) bool {
 			hasDefault = true
 			em.add(ind, "else")
 		} else {
-			if len(cc.List) != 1 {
+			if len(cc.List) != 1 && tagVar == "" {
 				f.fail(cc, "case with several expressions")
 			}
 			kw := "else if "
 			if first {
 				kw = "if "
 			}
-			em.add(ind, kw+f.cond(cc.List[0])+" then")
+			cnd := caseCond(cc.List[0])
+			for _, ce := range cc.List[1:] {
+				cnd = "(" + cnd + " || " + caseCond(ce) + ")"
+			}
+			em.add(ind, kw+cnd+" then")
 		}
 		first = false
 		f.push()
@@ -2135,8 +2936,51 @@ func (f *ftr) switchStmt(v *ast.SwitchStmt, ind int, em *emitter) bool {
 //
 // Trust assumption (TRANSLATOR_NOTES.md): an erased statement terminates and does not panic.
 func (f *ftr) erasable(s ast.Stmt) string {
-	switch s.(type) {
+	switch st := s.(type) {
 	case *ast.IfStmt, *ast.AssignStmt:
+	case *ast.ExprStmt:
+		// rule 2: a method call ON AN UNMODELLED FIELD of a modelled struct (`u.Perms.set(name, Perms{})`): it can only
+		// change state reachable from that field, which the model does not contain.  Its arguments must be
+		// expressions of the subset that cannot panic (they are not evaluated).
+		call, ok := st.X.(*ast.CallExpr)
+		if !ok {
+			return ""
+		}
+		sel, ok := call.Fun.(*ast.SelectorExpr)
+		if !ok {
+			return ""
+		}
+		fsel, ok := sel.X.(*ast.SelectorExpr)
+		if !ok {
+			return ""
+		}
+		rt := f.tryExprType(fsel.X)
+		if rt == nil || (rt.k != kPtr && rt.k != kStruct) {
+			return ""
+		}
+		if _, modelled := f.g.structFieldType(rt.name, fsel.Sel.Name); modelled {
+			return ""
+		}
+		okArgs := true
+		func() {
+			defer func() {
+				if r := recover(); r != nil {
+					if _, isU := r.(unsupported); !isU {
+						panic(r)
+					}
+					okArgs = false
+				}
+			}()
+			for _, a := range call.Args {
+				if x := f.expr(a); x.eff {
+					okArgs = false
+				}
+			}
+		}()
+		if !okArgs {
+			return ""
+		}
+		return "method call on " + rt.name + "." + fsel.Sel.Name + ", a field outside the model"
 	default:
 		return ""
 	}
@@ -2265,6 +3109,11 @@ func (f *ftr) calleeSigSafe(v *ast.CallExpr) *trSig {
 	case *ast.Ident:
 		return f.g.sigs[fn.Name]
 	case *ast.SelectorExpr:
+		if id, ok := fn.X.(*ast.Ident); ok {
+			if ht, ok := f.sig.handles[id.Name]; ok {
+				return f.g.sigs[ht+"_"+fn.Sel.Name]
+			}
+		}
 		if rx := f.tryExprType(fn.X); rx != nil {
 			recv := rx.name
 			if rx.k == kMap {
@@ -2321,10 +3170,13 @@ func assignedIn(n ast.Node, assigned, declared map[string]bool, bufs func(string
 				}
 			}
 		case *ast.CallExpr:
-			if _, ok := stdlibProcTable[calleeName(v.Fun)]; ok && len(v.Args) == 1 {
-				if id, ok := v.Args[0].(*ast.Ident); ok {
+			if _, ok := stdlibProcTable[calleeName(v.Fun)]; (ok || calleeName(v.Fun) == "copy") && len(v.Args) >= 1 {
+				if id := lvalueRoot(v.Args[0]); id != nil {
 					assigned[id.Name] = true
 				}
+			}
+			if _, ok := sinkTable[exprString(v.Fun)]; ok {
+				assigned["outs_"] = true
 			}
 			if sel, ok := v.Fun.(*ast.SelectorExpr); ok {
 				if id, ok := sel.X.(*ast.Ident); ok && bufs(id.Name) {
@@ -2529,10 +3381,14 @@ func (f *ftr) rangeStmt(v *ast.RangeStmt, ind int, em *emitter) {
 			pkgName = leanVar(id.Name)
 		}
 	}
+	sliceMode := false
 	if pkgOrder == "" {
 		m = f.expr(v.X)
-		if m.t.k != kMap {
-			f.fail(v, "range over %s (only maps)", m.t.lean())
+		if m.t.k == kStrs {
+			// `for _, x := range <[]string expression>`: the expression is evaluated once, the elements are visited in order
+			sliceMode = true
+		} else if m.t.k != kMap {
+			f.fail(v, "range over %s (only maps and []string)", m.t.lean())
 		}
 	}
 	keyId, ok := v.Key.(*ast.Ident)
@@ -2542,6 +3398,9 @@ func (f *ftr) rangeStmt(v *ast.RangeStmt, ind int, em *emitter) {
 	keyName, keyLean := keyId.Name, ""
 	if keyName == "_" {
 		keyName, keyLean = "", "k_"
+	}
+	if sliceMode && (keyName != "" || v.Value == nil) {
+		f.fail(v, "range over a slice with an index variable (only `for _, x := range s`)")
 	}
 	valName := ""
 	if v.Value != nil {
@@ -2632,8 +3491,11 @@ func (f *ftr) rangeStmt(v *ast.RangeStmt, ind int, em *emitter) {
 	if keyName != "" {
 		keyLean = f.lv(keyName)
 	}
+	if sliceMode && valName != "" {
+		keyLean = f.lv(valName)
+	}
 	h.add(2, "| "+keyLean+" :: keys_ =>")
-	if valName != "" {
+	if valName != "" && !sliceMode {
 		switch {
 		case pkgInfo == nil:
 			h.add(3, fmt.Sprintf("let %s : Bytes := (mapGet %s %s)", f.lv(valName), m.code, keyLean))
@@ -2656,6 +3518,8 @@ func (f *ftr) rangeStmt(v *ast.RangeStmt, ind int, em *emitter) {
 	ks := fmt.Sprintf("ks%d_", f.ntmp)
 	if pkgOrder != "" {
 		em.add(ind, fmt.Sprintf("let %s : List Bytes := %s", ks, pkgOrder))
+	} else if sliceMode {
+		em.add(ind, fmt.Sprintf("let %s : List Bytes := %s", ks, m.code))
 	} else {
 		em.add(ind, fmt.Sprintf("let %s : List Bytes := (mapKeys %s)", ks, m.code))
 	}
@@ -2704,13 +3568,36 @@ func (f *ftr) inoutArgs(c *ast.CallExpr) []string {
 			args = append([]ast.Expr{fn.X}, c.Args...)
 		}
 	}
-	if sig == nil || !sig.ok || len(args) != len(sig.params) {
+	if sel, ok := c.Fun.(*ast.SelectorExpr); ok {
+		if id, ok := sel.X.(*ast.Ident); ok {
+			if ht, ok := f.sig.handles[id.Name]; ok {
+				sig = f.g.sigs[ht+"_"+sel.Sel.Name]
+				args = c.Args
+			}
+		}
+	}
+	if sig == nil || !sig.ok {
 		return nil
 	}
 	var out []string
+	if sig.sinks {
+		out = append(out, "outs_")
+	}
 	for i, p := range sig.params {
+		if i >= len(args) {
+			break
+		}
 		if p.t.k == kBuf {
 			if id, ok := args[i].(*ast.Ident); ok {
+				out = append(out, id.Name)
+			}
+		}
+		if sig.isPtrout(p.name) {
+			a := args[i]
+			if ue, ok := a.(*ast.UnaryExpr); ok && ue.Op == token.AND {
+				a = ue.X
+			}
+			if id := lvalueRoot(a); id != nil {
 				out = append(out, id.Name)
 			}
 		}
@@ -2769,10 +3656,8 @@ func (g *trGen) translateFunc(sig *trSig) (text string, deps []string, why strin
 	}()
 	fd := sig.fd
 	f.push()
+	sig.envs = nil
 	var sigParts []string
-	for _, o := range sig.orders {
-		sigParts = append(sigParts, fmt.Sprintf("(%s_order_ : List Bytes)", leanVar(o)))
-	}
 	for _, p := range sig.params {
 		f.scopes[0][goName(p.name)] = p.t
 		f.order = append(f.order, goName(p.name))
@@ -2782,11 +3667,24 @@ func (g *trGen) translateFunc(sig *trSig) (text string, deps []string, why strin
 	// parameters that are assigned in the body become `let mut`
 	assigned, declared := map[string]bool{}, map[string]bool{}
 	bufs := func(n string) bool { t, ok := f.lookup(n); return ok && t.k == kBuf }
-	assignedIn(fd.Body, assigned, declared, bufs, func(c *ast.CallExpr) []string { return f.inoutArgs(c) })
+	assignedIn(sig.body, assigned, declared, bufs, func(c *ast.CallExpr) []string { return f.inoutArgs(c) })
 	for _, p := range sig.params {
 		if assigned[goName(p.name)] {
-			if p.t.k == kPtr {
+			if p.t.k == kPtr && !sig.isPtrout(p.name) {
 				f.fail(fd, "pointer parameter %s is assigned (caller-visible mutation is outside the subset)", p.name)
+			}
+			if p.t.k == kPtr {
+				// only writes THROUGH the pointer are modelled; re-binding the parameter itself is not
+				ast.Inspect(sig.body, func(x ast.Node) bool {
+					if as, ok := x.(*ast.AssignStmt); ok {
+						for _, l := range as.Lhs {
+							if id, ok := l.(*ast.Ident); ok && leanVar(id.Name) == p.name {
+								f.fail(as, "pointer parameter %s is re-bound", p.name)
+							}
+						}
+					}
+					return true
+				})
 			}
 			em.add(1, fmt.Sprintf("let mut %s := %s", p.name, p.name))
 			if sig.rebound[p.name] {
@@ -2795,6 +3693,19 @@ func (g *trGen) translateFunc(sig *trSig) (text string, deps []string, why strin
 				em.add(1, fmt.Sprintf("let mut %s_linked_ : Bool := true", p.name))
 			}
 		}
+	}
+	for _, p := range sig.ptrout {
+		if !assigned[goName(p)] {
+			em.add(1, fmt.Sprintf("let mut %s := %s", p, p))
+		}
+	}
+	if sig.sinks {
+		if _, clash := f.lookup("outs_"); clash {
+			f.fail(fd, "the Go code uses the reserved name outs_")
+		}
+		f.scopes[0]["outs_"] = gty{k: kOuts}
+		f.order = append(f.order, "outs_")
+		em.add(1, "let mut outs_ : List Out := []")
 	}
 	// named results start at their zero value
 	if fd.Type.Results != nil {
@@ -2808,7 +3719,7 @@ func (g *trGen) translateFunc(sig *trSig) (text string, deps []string, why strin
 			}
 		}
 	}
-	term := f.block(fd.Body.List, 1, &em)
+	term := f.block(sig.body.List, 1, &em)
 	if !term {
 		if len(sig.rets) > 0 {
 			f.fail(fd, "function can fall off its end")
@@ -2819,7 +3730,12 @@ func (g *trGen) translateFunc(sig *trSig) (text string, deps []string, why strin
 	for _, h := range f.helpers {
 		b.WriteString(h + "\n\n")
 	}
-	fmt.Fprintf(&b, "/-- %s  (%s) -/\n", goSigName(fd), g.pos(fd))
+	if sig.suffix != nil {
+		fmt.Fprintf(&b, "/-- the tail of %s from its first top-level `%s` statement (%s) -/\n", goSigName(fd), sig.suffix.from, g.pos(sig.body.List[0]))
+	} else {
+		fmt.Fprintf(&b, "/-- %s  (%s) -/\n", goSigName(fd), g.pos(fd))
+	}
+	sigParts = append(sig.leadParams(), sigParts...)
 	fmt.Fprintf(&b, "def %s %s: Except Fault %s := do\n", sig.name, joinSp(sigParts), parenT(sig.resultType()))
 	b.WriteString(strings.Join(em.lines, "\n") + "\n")
 	for d := range f.deps {
@@ -2857,9 +3773,7 @@ func (g *trGen) stub(sig *trSig, why string) string {
 	var sigParts []string
 	res := "Unit"
 	if sig.ok {
-		for _, o := range sig.orders {
-			sigParts = append(sigParts, fmt.Sprintf("(%s_order_ : List Bytes)", leanVar(o)))
-		}
+		sigParts = sig.leadParams()
 		for _, p := range sig.params {
 			sigParts = append(sigParts, fmt.Sprintf("(%s : %s)", p.name, p.t.lean()))
 		}
@@ -2900,10 +3814,17 @@ func translateAll(p *pkgFiles, repo, outPath string) {
 		deps: map[string][]string{}, status: map[string]string{}, busy: map[string]bool{}}
 	var names []string
 	for _, t := range trTargets {
-		s := g.signature(t[0], t[1])
+		s := g.signature(t[0], t[1], nil)
 		g.sigs[s.name] = s
 		names = append(names, s.name)
 	}
+	for i := range trSuffixTargets {
+		t := &trSuffixTargets[i]
+		s := g.signature(t.fn, t.recv, t)
+		g.sigs[s.name] = s
+		names = append(names, s.name)
+	}
+	g.propagate(names)
 	for _, n := range names {
 		g.ensure(n)
 	}
